@@ -48,6 +48,13 @@ def Sorted (l : List Elem) : Prop := l.Pairwise (fun a b => a.key ≤ b.key)
 /-- `ys` is the sorted enumeration of the multiset `xs`. -/
 def SortedPermOf (ys xs : List Elem) : Prop := ys.Perm xs ∧ Sorted ys
 
+/-- The property, for a whole history: the outputs are, cycle by cycle, those of `specCycle`
+    for some sorted enumeration of that cycle's pushed multiset. -/
+def HistorySpec (ac : Bool) : List Cycle → List Out → Prop
+  | [], outs => outs = []
+  | cy :: rest, outs =>
+    ∃ ys outs', SortedPermOf ys cy.pushes ∧ outs = specCycle ac ys cy ++ outs' ∧ HistorySpec ac rest outs'
+
 /-- the same outputs with values reduced to their keys (the observation level of the tie) -/
 structure KOut where
   res : Res
